@@ -24,7 +24,22 @@ Class Sig := {
   a_split      : N -> A -> option (A * A);
   a_split_none : N -> option (A * A);
   (* the 2-sew orientation test of two_sew: arguments l, b1r, b1l, r ; true = refuse *)
-  bad_orient   : V -> V -> V -> V -> bool
+  bad_orient   : V -> V -> V -> V -> bool;
+  (* geometry used by the kernels; Sc = the scalar type T *)
+  Sc : Type;
+  sc_in_unit : Sc -> bool;               (* !((t >= 1) | (t <= 0)) *)
+  v_lerp : V -> V -> Sc -> V;            (* v1 + (v2 - v1) * t *)
+  v_avg : V -> V -> V;                   (* Vertex2::average *)
+  v_cross : V -> V -> V -> Sc;           (* Vertex2::cross_product_from_vertices *)
+  v_eqb : V -> V -> bool;                (* PartialEq of Vertex2 *)
+  sc_signum : Sc -> Sc;
+  sc_eqb : Sc -> Sc -> bool;             (* == on T *)
+  sc_small : Sc -> bool;                 (* x.abs() < T::epsilon() *)
+  sc_pos : Sc -> bool;                   (* x > 0 *)
+  sc_neg : Sc -> bool;                   (* x < 0 *)
+  (* anchors are attribute values of kinds 4 (vertex), 5 (edge), 6 (face) *)
+  anchor_dim : A -> N;
+  a_eqb : A -> A -> bool
 }.
 
 (** Transactional variables of a map. [XBeta i d] is the TVar holding beta_i(d). *)
